@@ -175,6 +175,10 @@ Arguments ApiGet404 {A} url k.
 Arguments GetSid {A} k.
 Arguments SetSid {A} v p.
 
+(* `except SharePointRequestError as exc: if exc.status_code == 404` *)
+Definition is_404 (e : err) : bool :=
+  match e with RequestError (Some c) _ => Z.eqb c 404 | _ => false end.
+
 Fixpoint run {A} (E : env) (w : world) (p : prog A) (s : st) : res A * st :=
   match p with
   | Ret a => (Ok a, s)
@@ -187,8 +191,7 @@ Fixpoint run {A} (E : env) (w : world) (p : prog A) (s : st) : res A * st :=
   | ApiGet404 u k =>
       match get_json E w u s with
       | (Ok o, s') => run E w (k (Some o)) s'
-      | (Raise (RequestError (Some 404%Z) u'), s') => run E w (k None) s'
-      | (Raise e, s') => (Raise e, s')
+      | (Raise e, s') => if is_404 e then run E w (k None) s' else (Raise e, s')
       end
   | GetSid k => run E w (k (sid s)) s
   | SetSid v p => run E w p (set_sid v s)
